@@ -419,8 +419,8 @@ struct Digit {
                         return QNumberType::Real;
                     }
 
-                    if (number.Natural <= 0x7FFFFFFFFFFFFFFFULL) {
-                        number.Integer = -number.Integer;
+                    if (number.Natural <= 0x8000000000000000ULL) {
+                        number.Natural = (SizeT64{0} - number.Natural); // Two's complement; includes -2^63.
                         return QNumberType::Integer;
                     }
                 }
